@@ -29,11 +29,13 @@
 (* constrained (denotations are compared, not texts).                      *)
 (*                                                                         *)
 (* Named deviations:                                                       *)
-(*   ident_digit_start_unescaped  an identifier that starts with a digit   *)
-(*       (id, type) or with `-` and a digit (any) is printed unescaped     *)
-(*       (`#1a`, `.-1`): not an identifier any more                        *)
+(*   ident_start_unescaped  an identifier that starts with a digit (id,    *)
+(*       type), with `-` and a digit, or is a lone `-` (any) is printed    *)
+(*       unescaped (`#1a`, `.-1`, `.-`): not an identifier any more        *)
 (*   nonascii_symbol_raw_rejected  a code point >= U+00A1 that is not      *)
 (*       alphanumeric is accepted escaped, printed raw, and rejected raw   *)
+(*   second_id_replaces_first  of two id selectors in one compound only    *)
+(*       the last is kept (`#i#j` is read and printed as `#j`)             *)
 (*   attr_universal_ns_rule_rejected  `[*|x]` is accepted by               *)
 (*       selector.parse but `[*|x] {..}` is a parse error                  *)
 (***************************************************************************)
@@ -169,7 +171,7 @@ StartsDigit(v)     == Len(v) > 0 /\ IsDigit(v[1])
 StartsDashDigit(v) == Len(v) > 1 /\ v[1] = 45 /\ IsDigit(v[2])
 DigitStartScope(toks) ==
   \A k \in InvalidAt(toks) : LET d == Decode(toks[k].v) IN
-     StartsDashDigit(d) \/ (toks[k].t \in {"id", "elem"} /\ StartsDigit(d))
+     StartsDashDigit(d) \/ d = <<45>> \/ (toks[k].t \in {"id", "elem"} /\ StartsDigit(d))
 DevDigitStart(e) == /\ L1(e) /\ L2(e) /\ L4(e)
                     /\ DigitStartScope(e.p1.toks) /\ DigitStartScope(e.em.toks)
 
@@ -178,6 +180,13 @@ NonAlnumHigh == {169, 215, 8594, 128512}
 HasSymbol(den) == \E k \in 1..Len(den) : den[k].t \in NameClasses \cup {"aval"} /\ \E p \in 1..Len(den[k].v) : den[k].v[p] \in NonAlnumHigh
 DevSymbol(e) == /\ HasSymbol(e.den) /\ L4(e) /\ Valid(e.p1.toks)
                 /\ e.p2.st = "err" /\ e.em.st = "err"
+
+(* two ids in one compound: only the last one is kept *)
+TwoIdsAt(den) == {k \in 1..(Len(den) - 1) : den[k].t = "id" /\ den[k + 1].t = "id"}
+DropAt(s, K) == LET keep == {k \in 1..Len(s) : k \notin K} IN
+                [j \in 1..Cardinality(keep) |-> s[CHOOSE k \in keep : Cardinality({m \in keep : m < k}) = j - 1]]
+DevTwoIds(e) == /\ TwoIdsAt(e.den) # {} /\ L1(e) /\ L2(e) /\ L3(e)
+                /\ Norm(e.p1.toks) = DropAt(e.den, TwoIdsAt(e.den))
 
 HasUniversalNsAttr(den) == \E k \in 1..Len(den) : den[k].t = "aname" /\ \E p \in 1..Len(den[k].v) : den[k].v[p] = 42
 DevAttrNs(e) == /\ HasUniversalNsAttr(e.den) /\ L1(e) /\ L4(e) /\ Valid(e.p1.toks) /\ e.em.st = "err"
